@@ -21,6 +21,33 @@ package fsstore
 //@   ensures forall i mathint :: 0 <= i && i < old(len(*shards)) ==> (*shards)[i] == old((*shards)[i])
 //@   ensures forall i mathint :: old(len(*shards)) <= i && i < len(*shards) ==> os.pathsafe((*shards)[i])
 
+// The default escaping is unpadded base32 of the *whole* key (a function of every byte of it).
+//@ func b32enc(in) (r)
+//@   assigns nothing
+//@   ensures[C17] r == base32.b32text(in)
+//@ func (*Store).Init(basepath, escapingFunc, shardingFunc) (err)
+//@   requires store != nil
+//@   ensures[C17] err == nil ==> store.basepath == basepath && store.escapingFunc == escapingFunc && store.shardingFunc == shardingFunc
+//@ func (*Store).InitDefaults(basepath) (err)
+//@   requires store != nil
+//@   before Init assert[C17] carg0 == store && carg1 == basepath && carg2 == b32enc && carg3 == sharding.Shard_r12
+
+// Reads look only at the path of the key (nothing outside the base directory is opened or examined).
+//@ func (*Store).Has(ctx, key) (r, err)
+//@   requires store != nil && store.shardingFunc != nil && store.escapingFunc != nil
+//@   after pathForKey let keypath = result0
+//@   before pathForKey assert[C17] carg1 == key
+//@   before Stat assert[C17] carg0 == keypath
+//@ func (*Store).GetStream(ctx, key) (r, err)
+//@   requires store != nil && ctx != nil && store.shardingFunc != nil && store.escapingFunc != nil
+//@   after pathForKey let keypath = result0
+//@   before pathForKey assert[C17] carg1 == key
+//@   before OpenFile assert[C17] carg0 == keypath && carg1 == 0
+//@   ensures err == nil ==> r != nil && dyntype(r, "*os.File")
+//@ func (*Store).Get(ctx, key) (r, err)
+//@   requires store != nil && ctx != nil && store.shardingFunc != nil && store.escapingFunc != nil
+//@   before GetStream assert[C17] carg0 == store && carg2 == key
+
 //@ func (*Store).pathForKey(key) (r)
 //@   requires store != nil && store.shardingFunc != nil && store.escapingFunc != nil
 //@   assigns nothing
@@ -49,3 +76,4 @@ package fsstore
 //@   assigns nothing
 
 //@ func CheckAndMakeBasepath(basepath) (err)
+//@   assigns nothing
